@@ -205,6 +205,8 @@ fn case<G: CurveTag>(bytes: &[u8], col: &mut Collector, kmax: usize, force: Opti
                 }
                 false
             })),
+            ("P negated", Box::new(|i, _| { let q = (-i.P.into_group()).into_affine(); if q == i.P { return false; } i.P = q; true })),
+            ("P mirrored (same x, other y)", Box::new(|i, _| { match G::same_x_other_y(&i.P) { Some(q) => { i.P = q; true } None => false } })),
             ("a+1", Box::new(|_, m| { m.a += Fr::<G>::one(); true })),
             ("a-1", Box::new(|_, m| { m.a -= Fr::<G>::one(); true })),
             ("b+1", Box::new(|_, m| { m.b += Fr::<G>::one(); true })),
@@ -290,7 +292,7 @@ pub fn replay(sub: &str, bytes: &[u8], col: &mut Collector) -> Result<(), Failur
 
 pub fn run(tier: &str, seed: u64) -> i32 {
     let mut rep = Report::new("C10", tier, seed);
-    rep.rule = "n = 2^k for k = 0..7; vectors dense / sparse / zero / unit / 0-1 / zero lower or upper half (degenerate rounds); factor vectors random non-zero / all-one / powers / R1CS-like (1…1,u…u and y^-i); Q random; G, H from BulletproofGens or random; create -> k rounds; verify vs explicit-folding reference (challenges by position from the log) and vs the closed form (accept iff no round point is the identity); 21 negative edits (wrong product, P+G_0, P+small-order point, a±1, b±1, swaps, rounds dropped/added/reordered, factor entry changed, claimed n doubled / halved / zero / n−1 / n+1 / 3n/4, label) each rejected and agreeing with the reference; non-trivial = k ≥ 1 with non-uniform factors; distinct = instance parameters".into();
+    rep.rule = "n = 2^k for k = 0..7; vectors dense / sparse / zero / unit / 0-1 / zero lower or upper half (degenerate rounds); factor vectors random non-zero / all-one / powers / R1CS-like (1…1,u…u and y^-i); Q random; G, H from BulletproofGens or random; create -> k rounds; verify vs explicit-folding reference (challenges by position from the log) and vs the closed form (accept iff no round point is the identity); 23 negative edits (wrong product, P+G_0, P+small-order point, −P, the other point with P's x-coordinate, a±1, b±1, swaps, rounds dropped/added/reordered, factor entry changed, claimed n doubled / halved / zero / n−1 / n+1 / 3n/4, label) each rejected and agreeing with the reference; non-trivial = k ≥ 1 with non-uniform factors; distinct = instance parameters".into();
     rep.assumptions = vec!["access through the guarded re-export verif_hooks::{InnerProductProof, inner_product}".into()];
     let n = super::scale(tier, 700, 12000);
     for c in Curve::ALL {
